@@ -83,6 +83,17 @@ Theorem C14_export_import_commissioning : forall D od nid,
     (nid = None -> od_node_id od' = (match od_node_id od with Some 0 => None | x => x end)).
 Proof. exact export_import_commissioning. Qed.
 
+(* the destination does not change the document: an explicitly requested document type is honoured for every
+   destination (stream, stdout, any file name, also one whose suffix names the other format); without an explicit
+   type a file name selects DCF exactly when it ends in ".dcf" *)
+Theorem C14_destination_type_explicit : forall dest t, t = s "eds" \/ t = s "dcf" ->
+  export_od_type dest (Some t) = Ok (Some (streq t (s "dcf"))).
+Proof. exact export_type_explicit. Qed.
+
+Theorem C14_destination_type_from_name : forall name,
+  export_od_type (Some name) None = Ok (Some (ends_with (s ".dcf") name)).
+Proof. exact export_type_from_name. Qed.
+
 (* ---- non-vacuity ---- *)
 Example C14_nv_objects :
   Forall (wf_obj (Some 5)) [ex_rec; OVar (ex_v 0 21 (Some (PVInt (-1))) None (Some 9223372036854775807))] /\
@@ -115,3 +126,5 @@ Print Assumptions C14_attributes_kept.
 Print Assumptions C14_export_import_objects_partial.
 Print Assumptions C14_containers_kept.
 Print Assumptions C14_export_import_commissioning.
+Print Assumptions C14_destination_type_explicit.
+Print Assumptions C14_destination_type_from_name.
